@@ -203,33 +203,45 @@ func c20RefUDP(d []byte) (r c20UDPRef) {
 }
 
 func Harness_C20_udp() {
+	c20UDPOne(&UDPRelay{}, "udp")
+}
+
+// Two datagrams through the same relay: what the second one parses to does not depend on the first
+// (a relay serves many destinations; nothing remembered from one datagram may leak into the next).
+func Harness_C20_udp_sequence() {
+	relay := &UDPRelay{}
+	n1 := verif_IntRange(0, verif_Bound("dgram"))
+	relay.parseUDPHeader(verif_Bytes(n1))
+	c20UDPOne(relay, "udpseq")
+}
+
+func c20UDPOne(relay *UDPRelay, tag string) {
 	n := verif_IntRange(0, verif_Bound("dgram"))
 	d := verif_Bytes(n)
-	relay := &UDPRelay{}
 	host, port, payload, err := relay.parseUDPHeader(d)
 	ref := c20RefUDP(d)
 	if ref.either {
 		if err == nil {
-			verif_Assert("C20.udp.either.payload", len(payload) <= len(d))
+			verif_Assert("C20."+tag+".either.payload", len(payload) <= len(d))
 		}
-		verif_Cover("C20.udp.either")
+		verif_Cover("C20."+tag+".either")
 		return
 	}
 	if !ref.ok {
-		verif_Assert("C20.udp.rejects", err != nil)
-		verif_Cover("C20.udp.reject")
+		verif_Assert("C20."+tag+".rejects", err != nil)
+		verif_Cover("C20."+tag+".reject")
 		return
 	}
 	verif_Known("C20-udp-short-domain-datagram", n < 10)
-	verif_Assert("C20.udp.accepts", err == nil)
-	verif_Assert("C20.udp.port", port == ref.port)
-	verif_Assert("C20.udp.payload", verif_BytesEq(payload, d[ref.payOff:]))
+	verif_Assert("C20."+tag+".accepts", err == nil)
+	verif_Assert("C20."+tag+".port", port == ref.port)
+	verif_Assert("C20."+tag+".payload", verif_BytesEq(payload, d[ref.payOff:]))
 	if ref.atyp == 3 {
-		verif_Assert("C20.udp.domain", verif_StrEq(host, string(ref.addr)))
+		verif_Assert("C20."+tag+".domain", verif_StrEq(host, string(ref.addr)))
 	} else {
-		verif_Assert("C20.udp.ip", verif_StrEq(host, net.IP(ref.addr).String()))
+		verif_Assert("C20."+tag+".ip", verif_StrEq(host, net.IP(ref.addr).String()))
 	}
-	verif_Cover("C20.udp.accept")
+	verif_Cover("C20."+tag+".accept")
 }
 
 // parse(build(host,port,payload)) returns the same destination and payload.
